@@ -5,5 +5,7 @@ from . import derive_rules
 def run(ctx):
     ctx.rules_run.append('S-ENC.derive: emission summary of every corpus schema x presence vector = documented format (reference function)')
     n = derive_rules.c08(ctx)
+    if ctx.tier == 'thorough':
+        n += derive_rules.on_random(ctx, derive_rules.c08)
     return ('The derived Encode of every corpus schema was expanded by the real proc-macro, its MIR interpreted abstractly for every '
             'variant and presence vector (all leaf values at once) and compared with the documented format: %d cases.' % n)
